@@ -29,6 +29,11 @@ def wants(mod, tname, t, feats):
                          "VisibleString"})
 
 
+def boundary_cases(mod, t):
+    """catalogue types (CatCons): every boundary value and every value just outside a range or inside a gap"""
+    return [(v, 128) for v in gen.boundary_values(mod, t)] + [(v, 128) for v in gen.boundary_violations(mod, t)]
+
+
 def value_of(x):
     return x[0]
 
@@ -111,7 +116,7 @@ def main(argv):
     return runner.run_module_check(
         PID, "exploration", RULE, valcheck.worker, lambda case: valcheck.replay_case(sys.modules[__name__], case), argv,
         n_modules=(40, 400), n_values=(50, 150), extra_worker_args=("vf.c08",),
-        cfg_kw={"ext_constraints": False},
+        cfg_kw={"ext_constraints": False}, extra_modules=[m for m in gen.catalogue() if m.name == "CatCons"],
         assumptions=["extensible constraints, -fno-constraints builds, ENUMERATED membership and REAL WITH COMPONENTS are "
                      "outside the statement and are not generated", "values are injected through the BER decoder"])
 
